@@ -86,6 +86,26 @@ Example C11_ex_use_after_free_rejected : safeb (run ledger0 [Alloc 1 TData 4; Al
 Example C11_ex_free_of_returned_rejected : safeb (run ledger0 [Alloc 1 TRet 4]) [Return 1; Free 1] = false. Proof. reflexivity. Qed.
 Example C11_ex_leak_detected : own (run ledger0 [Alloc 1 THandle 8; Alloc 2 TData 4; Free 1]) 2 = true. Proof. reflexivity. Qed.
 
+
+(* --- the formatted methods putstrf / addstrf (DYNAMIC_VSPRINTF) are operations of the step functions (TPutf, HPutf, LPutf, SAddf, APutf):
+       C11_*_safe and C11_*_no_leak above quantify over every op of every history and so include them.  A life with formatted puts of 10, 1024
+       and 2500 characters, failing in the growth step, in the put and not at all: --- *)
+Example C11_ex_life_with_putstrf :
+  let c := script_qhashtbl sz64 3 false 1 allok in
+  match st' c with
+  | Some g0 =>
+    let h := [(HPutf 7 4 10, allok); (HPutf 8 4 1024, fail_at 1); (HPutf 8 4 1024, fail_at 3); (HPutf 8 4 2500, allok); (HPutf 7 4 5000, fail_at 2); (HPutf 7 4 1023, allok); (HGet 8, allok)] in
+    let g := fst (hrun (hash_step sz64) g0 (run ledger0 (evs c)) h) in let l := snd (hrun (hash_step sz64) g0 (run ledger0 (evs c)) h) in
+    List.length (els g) = 2%nat /\ safeb (run ledger0 (evs c)) (hevents (hash_step sz64) g0 (run ledger0 (evs c)) h) = true /\
+    map (own (run l (evs (script_free g)))) [1; 2; 3; 4; 5; 6; 7; 8; 9; 10; 11; 12; 13; 14; 15; 16; 17; 18; 19; 20; 21; 22; 23; 24] = repeat false 24
+  | None => False
+  end.
+Proof. vm_compute. repeat split. Qed.
+Theorem C11_vsprintf_safe : forall fuel len size al k bs l, Inv bs l ->
+  let r := vs_loop fuel len size al k (nxt l) in
+  safe l (fst (fst (fst r))) /\ Inv (olist (snd (fst (fst r))) ++ bs) (run l (fst (fst (fst r)))).
+Proof. exact vsprintf_valid_thm. Qed.
+
 Print Assumptions C11_tree_safe. Print Assumptions C11_hashtbl_safe. Print Assumptions C11_listtbl_safe. Print Assumptions C11_list_safe.
 Print Assumptions C11_hasharr_safe. Print Assumptions C11_vector_safe.
 Print Assumptions C11_tree_no_leak. Print Assumptions C11_hashtbl_no_leak. Print Assumptions C11_listtbl_no_leak. Print Assumptions C11_list_no_leak.
@@ -93,3 +113,4 @@ Print Assumptions C11_wrappers_no_leak. Print Assumptions C11_hasharr_no_leak. P
 Print Assumptions C11_dead_stays_dead. Print Assumptions C11_tree_owns_only_own_allocations. Print Assumptions C11_hashtbl_owns_only_own_allocations.
 Print Assumptions C11_listtbl_owns_only_own_allocations. Print Assumptions C11_list_owns_only_own_allocations. Print Assumptions C11_vector_owns_only_own_allocations.
 Print Assumptions C11_safeb_iff.
+Print Assumptions C11_vsprintf_safe.
